@@ -37,14 +37,14 @@ R.contract(f'{RN}.submit_task', abstract=True,
     self_type='Obj[Runner]', params={'task': 'Task', 'task_name': 'Str', 'use_cache': 'Bool'},
     requires=[C("task not in INFLIGHT(self)", 'not already in flight', serves=('C03', 'C01', 'C11', 'C14')),
               C("task not in RES(self)", 'has no result yet (each task is submitted at most once per run)', serves=('C03', 'C10', 'C17', 'C02'))],
-    ensures=[C("INFLIGHT(self) == old(INFLIGHT(self)) | {task}", 'in flight += task'),
+    ensures=[C("forall('Task', lambda k: (k in INFLIGHT(self)) == ((k in old(INFLIGHT(self))) or (k == task)))", 'in flight += task'),
              C("RES(self) == old(RES(self))", 'results untouched')],
     frame=['self.INFLIGHT'])
 # Only zero-ness of the count is observable by the coordinator (`> 0` tests), so that is what the contract pins down.
 R.contract(f'{RN}.pending_task_count', abstract=True, self_type='Obj[Runner]', params={}, returns='Int', pure=True,
     ensures=[C("(result >= 0) and ((result == 0) == empty(INFLIGHT(self)))", 'zero iff nothing in flight', serves=())])
 R.contract(f'{RN}.get_result', abstract=True, self_type='Obj[Runner]', params={'task': 'Task'}, returns='Res',
-    ensures=["task in old(RES(self))", "result == RES(self)[task]", "RES(self) == old(RES(self))", "INFLIGHT(self) == old(INFLIGHT(self))"],
+    ensures=["task in old(RES(self))", "result == RES(self)[task]", "RES(self) == old(RES(self))", "forall('Task', lambda k: (k in INFLIGHT(self)) == (k in old(INFLIGHT(self))))"],
     raises={'KeyError': ["task not in RES(self)"]}, frame=[])
 R.contract(f'{RN}.remove_results', abstract=True, self_type='Obj[Runner]', params={'tasks': 'Set[Task]'},
     ensures=[
@@ -54,7 +54,7 @@ R.contract(f'{RN}.remove_results', abstract=True, self_type='Obj[Runner]', param
           'retained values unchanged', serves=('C01', 'C02', 'C17')),
         C("forall('Task', lambda k: implies(k in tasks, k not in RES(self)))",
           'release: every named task is removed', serves=('C17',)),
-        C("INFLIGHT(self) == old(INFLIGHT(self))", 'in-flight set untouched'),
+        C("forall('Task', lambda k: (k in INFLIGHT(self)) == (k in old(INFLIGHT(self))))", 'in-flight set untouched'),
     ],
     frame=['self.RES'])
 R.contract(f'{RN}.cancel', abstract=True, self_type='Obj[Runner]', params={},
@@ -69,7 +69,7 @@ R.contract(f'{RN}.close', abstract=True, self_type='Obj[Runner]', params={}, ens
 R.contract(f'{RN}.wait#yield', abstract=True, self_type='Obj[Runner]', params={}, returns='Tuple[Task,WaitRes]',
     ensures=[
         C("result[0] in old(INFLIGHT(self))", 'a yielded task was in flight', serves=()),
-        C("INFLIGHT(self) == old(INFLIGHT(self)) - {result[0]}", 'AT THE YIELD the task is no longer in flight'),
+        C("forall('Task', lambda k: (k in INFLIGHT(self)) == ((k in old(INFLIGHT(self))) and (k != result[0])))", 'AT THE YIELD the task is no longer in flight'),
         C("implies(wr_is_meta(result[1]), (result[0] in RES(self)) and (RES(self)[result[0]].meta == wr_meta(result[1])))", 'a successful task has its result in memory'),
         C("forall('Task', lambda k: implies(k != result[0], ((k in RES(self)) == (k in old(RES(self)))) and implies(k in RES(self), RES(self)[k] == old(RES(self))[k])))", 'other results untouched'),
         C("implies(not wr_is_meta(result[1]), (result[0] in RES(self)) == (result[0] in old(RES(self))))", 'a failed task gains no result'),
